@@ -124,9 +124,15 @@ mutual
       simp only [toks_tok, toks_append, toks_nil]
       exact .app _ (args_of_attrs a.attrs)
     | .op .plain sym args, h => by
-      simp only [wfTerm, Bool.and_eq_true, Bool.not_eq_true'] at h
+      simp only [wfTerm, Bool.and_eq_true, Bool.not_eq_true', Bool.or_eq_true, beq_iff_eq] at h
       simp only [pieces]
-      exact term_of_sepBy h.1.1 (sepBy_joinP (by rfl) _ (operandsL_ne args h.1.2) (operands_of_wf args h.2))
+      rcases h.1.1 with ha | hl
+      · exact term_of_sepBy ha (sepBy_joinP (by rfl) _ (operandsL_ne args h.1.2) (operands_of_wf args h.2))
+      · match args, hl, h with
+        | [e], _, h =>
+          have := operands_of_wf [e] h.2
+          simp only [operandsL, joinP] at this ⊢
+          exact this _ (by simp)
     | .op .angle sym args, h => by
       simp only [wfTerm, Bool.and_eq_true, Bool.not_eq_true'] at h
       simp only [pieces, h.1.1, if_true]
